@@ -140,8 +140,10 @@ def frelsExpr (ss : SS) (f : Filter) (frels : Rels) : Bool :=
     expressible, the targets are the zero entity or handles the client was given, and — unless the
     list is empty, which is rejected cleanly — no relation component is named twice and every
     component named is one the filter REQUIRES (so every selected entity has it).  A
-    `SetRelationsBatch` naming a component that some selected entity lacks panics AFTER taking the
-    world lock: it is not rejected without effect and is not a step.  (A removed target and a
+    `SetRelationsBatch` naming a component that some selected entity lacks panics in the planning
+    loop, after destination tables may have been created (since the repair D27 the world lock is
+    taken only after the planning, so the world is not left locked any more): it is not rejected
+    without effect and is not a step.  (A removed target and a
     non-relation component ARE steps: the pre-validation rejects them before anything is touched.) -/
 def guardRB (s : St) : OpRB → Bool
   | .base op => guard s op
